@@ -121,7 +121,7 @@ def run(ctx: Ctx) -> None:
     ord_pack(sub, 'C07.R3')
     for ob in sub.obligations:
         if 'bounds' in ob.construct or 'appearance-order' in ob.construct or ob.construct == 'expressions_names_indices':
-            ctx.add('C07.R3', ob.construct, ob.ok, (ob.file, ob.line), ob.message, ob.detail)
+            ctx.adopt('C07.R3', ob)
     om = prog.module('optimization')
     table = om.assigns.get('algorithms')
     ctx.need(isinstance(table, ast.Dict), 'optimization.algorithms is a dict literal')
@@ -137,6 +137,11 @@ def run(ctx: Ctx) -> None:
         ok = bool(uses) != bool(warn) or bool(uses)
         ctx.add('C07.R3', f'optimization.{g.name}:bounds', ok and (bool(uses) or bool(warn)), g,
                 f'{name}: bounds ' + ('are forwarded to the backend' if uses else 'are ignored with a warning') if (uses or warn) else f'{name}: bounds are neither forwarded nor reported as ignored', 'fwd' if uses else 'warn' if warn else 'dropped')
+        if 'bounds' in str(name):
+            # the name under which users select it promises bound support
+            ctx.add('C07.R3', f'optimization.algorithms[{name}]:advertised', bool(uses), (om.path, k.lineno),
+                    f'{name} is served by {g.name}, which forwards the bounds' if uses else
+                    f'the algorithm selected as {name!r} is {g.name}, which does not hand the bounds to its backend (it ignores them): estimates outside the declared bounds are returned under a name that promises bound support', g.name, positive=True)
     ctx.floor('C07.R3', 12)
 
     # R4
